@@ -14,7 +14,8 @@ THEOREMS = ['Otel.C07.' + t for t in (
     'long_default_boundaries', 'double_default_boundaries', 'default_boundaries_sorted', 'recordMinMax_defaults',
     'conv_double', 'conv_long_exact', 'bucket_spec_long_partial', 'bucket_spec_long_witness',
     'merge_hom', 'merge_new_left', 'mergeL_hom', 'mergeR_hom', 'hist_perm',
-    'storage_conserves_count', 'storage_conserves_sum', 'storage_series_count_and_sum')]
+    'storage_conserves_count', 'storage_conserves_sum', 'storage_series_count_and_sum', 'histHom', 'storage_series_point')] + [
+    'Otel.Series.run_map', 'Otel.Series.run_key_totals', 'Otel.Series.run_totals', 'Otel.Series.run_nodup']
 HARNESSES = [Harness('s_c07', ['harness/s_c07.cc'], sdk_srcs=sdk_sources('common', 'resource', 'version', 'metrics'),
                      includes=SDK_INCLUDES)]
 H = 's_c07'
@@ -398,15 +399,16 @@ def nontrivial(case, out):
 LEVEL_TEXT = ('Lean 4 theorems over an executable model of Long/DoubleHistogramAggregation (exact rationals): bucket_spec / '
               'bucket_unique (b[i-1] < v <= b[i], last bucket above the top, exactly one bucket) for every sorted boundary list; '
               'counts_eq_spec, counts_sum_eq_count, count_eq, sum_eq, min_eq / max_eq for every value list; merge_hom, mergeL_hom, '
-              'mergeR_hom (merge of the points of arbitrary splits = the point of all values) and hist_perm; sentinels and default '
-              'boundary lists re-extracted from the source each run. Tied to the code by a differential run through the aggregation '
-              'classes and through MeterProvider + view + explicit delta/cumulative readers under ASan/UBSan.')
+              'mergeR_hom (merge of the points of arbitrary splits = the point of all values) and hist_perm; storage_series_point: '
+              'through the series storage, for every history of collection cycles and delta/cumulative readers, the point reported '
+              'for an attribute set is hist of the values recorded for it in the interval (below the cardinality limit); sentinels and '
+              'default boundary lists re-extracted from the source each run. Tied to the code by a differential run through the '
+              'aggregation classes and through MeterProvider + view + explicit delta/cumulative readers under ASan/UBSan.')
 LEVEL_NOTE = ('Trusted: Lean kernel; tools/gen_c07.py; harness, generators; std::lower_bound modelled by its specification. '
               'Partial: floating-point rounding of sum_ and int64 overflow are not modelled (sum compared only in the exact range); '
               'for int64 instruments a value beyond 2^53 is rounded to double before the boundary comparison '
-              '(bucket_spec_long_partial + _witness, finding bucket-of-int64-beyond-2^53); the storage-level path (cycles, readers) '
-              'is tied by the differential run; storage_conserves_count / storage_conserves_sum carry count and sum through every '
-              'history of cycles and readers (totals over the series); storage_series_count_and_sum gives count and sum per series '
-              'below the cardinality limit; buckets/min/max per series follow from mergeL_hom + hist_perm, not from a storage theorem.')
+              '(bucket_spec_long_partial + _witness, finding bucket-of-int64-beyond-2^53); storage_series_point assumes fewer '
+              'measurements than the cardinality limit (no folding) and an enumeration order of the hash tables that does not depend '
+              'on the aggregation values; beyond the limit only count and sum totals are carried (storage_conserves_count/_sum).')
 DESIGN_REF = 'DESIGN.md section 4, C07'
 TECHNIQUE = 'proof (Lean 4) + correspondence'
